@@ -6,7 +6,10 @@ Tie: generated jugfiles (edges arising through plain arguments, keyword argument
 containers, tasklets, task- and tasklet-valued indices, iteratetask, mapped sequences, their
 slices and elements, CustomHash, identity; duplicate calls) x every function name / dotted name /
 regex as target x store states (full, partial and dependency-closed, partial and not closed,
-packed, with foreign keys) x backends (file, packed file, dict with backing file, fake redis):
+packed, packed by a `jug pack` that was killed after the new pack file was in place but before /
+while the result files it replaces were unlinked, re-dumped next to the pack by a worker whose
+store object predates the pack - i.e. keys that exist BOTH inside the pack and as a file -, with
+foreign keys) x backends (file, packed file, dict with backing file, fake redis):
 the REAL `jug invalidate` (CLI main / InvalidateCommand.run) and the REAL shell invalidate() are
 run on two copies of the same store, then the REAL `jug execute` on the first.  Observed: the
 list handed to remove_many, the sequence of remove() calls of every shell invalidate(), the keys
@@ -740,8 +743,81 @@ class PlainOptions:
 
 
 # ---------------------------------------------------------------------------- one jugfile: base state
-def build_base(spec, state, backend, root, rng):
-    """write the jugfile, run the real execute, then carve the requested store state"""
+class Killed(BaseException):
+    """the process running `jug pack` dies (not an Exception: no handler of jug may swallow it)"""
+
+
+@contextlib.contextmanager
+def die_at_unlink(jd, n):
+    """The process dies at its (n+1)-th unlink of a result file of the jug directory jd (lock and temp files do
+    not count): update_pack() has then renamed the new pack into place and removed n of the files it replaces."""
+    real = os.unlink
+    done = [0]
+    skip = (os.path.join(jd, 'locks') + os.sep, os.path.join(jd, 'tempfiles') + os.sep, os.path.join(jd, 'packs') + os.sep)
+
+    def unlink(p, *a, **k):
+        sp = os.fspath(p)
+        if isinstance(sp, bytes):
+            sp = os.fsdecode(sp)
+        if sp.startswith(jd + os.sep) and not sp.startswith(skip):
+            if done[0] >= n:
+                raise Killed()
+            done[0] += 1
+        return real(p, *a, **k)
+    os.unlink = unlink
+    try:
+        yield
+    finally:
+        os.unlink = real
+
+
+def real_pack(env, how):
+    """`jug pack` on a file store: the real update_pack(), run to completion or killed (how = {'mode', 'unlinks'})"""
+    s = env.open()
+    if how['mode'] == 'killed':
+        try:
+            with die_at_unlink(env.jd, how['unlinks']):
+                s.update_pack()
+        except Killed:
+            pass
+    else:
+        s.update_pack()
+
+
+def tid_key(t):
+    return tuple(t)
+
+
+def make_plan(rng, spec, state, backend):
+    """every random decision of build_base, as data (recorded in the replay)"""
+    otasks = oracle_tasks(spec)
+    plan = {'pack': None, 'stale': [], 'picks': [], 'back': [], 'foreign': [], 'repack': None}
+    if backend == 'filepack' and state != 'empty':
+        r = rng.random()
+        if r < 0.4:
+            plan['pack'] = {'mode': 'complete'}
+        elif r < 0.8:
+            plan['pack'] = {'mode': 'killed', 'unlinks': rng.choice([0, 0, 1, 2, 4])}
+        else:
+            # a worker whose store object was created before the pack stores some results again afterwards
+            plan['pack'] = {'mode': 'complete'}
+            plan['stale'] = [list(tid) for tid, _, _, _ in otasks if rng.random() < 0.5]
+    if state in ('partial_closed', 'partial_open') and otasks:
+        picks = [tid for tid, _, _, _ in otasks if rng.random() < 0.3] or [rng.choice(otasks)[0]]
+        if state == 'partial_closed':
+            picks = sorted(closure(otasks, picks))
+        plan['picks'] = [list(t) for t in picks]
+        if backend == 'filepack' and rng.random() < 0.5:
+            # some results come back as plain files next to the pack
+            plan['back'] = [list(t) for t in picks if rng.random() < 0.5]
+    plan['foreign'] = ['%040x' % rng.getrandbits(160) for _ in range(rng.choice([0, 1, 1, 2]))]
+    if plan['foreign'] and backend == 'filepack' and rng.random() < 0.5:
+        plan['repack'] = {'mode': 'killed', 'unlinks': 0} if (plan['pack'] or {}).get('mode') == 'killed' else {'mode': 'complete'}
+    return plan
+
+
+def build_base(spec, state, backend, root, plan):
+    """write the jugfile, run the real execute, then carve the requested store state as the plan says"""
     env = Env(backend, root, 'base')
     with open(env.jugfile, 'w') as fh:
         fh.write(jugfile_text(spec))
@@ -758,42 +834,39 @@ def build_base(spec, state, backend, root, rng):
     for (tid, nm, _, _), (h, name, _) in zip(otasks, info):
         if nm != name:
             raise HarnessError('C09 harness: task %r is named %r, expected %r' % (tid, name, nm))
-    if state != 'empty':
-        run_execute(env)
-        if backend == 'filepack':
-            s = env.open()
-            s.update_pack()
     hashes = [h for h, _, _ in info]
     h_of = dict((tid, h) for (tid, _, _, _), h in zip(otasks, hashes))
-    gone = set()
-    if state in ('partial_closed', 'partial_open') and hashes:
-        picks = [tid for tid, _, _, _ in otasks if rng.random() < 0.3] or [rng.choice(otasks)[0]]
-        if state == 'partial_closed':
-            picks = closure(otasks, picks)
-        gone = set(h_of[t] for t in picks)
+    vals = None
+    if state != 'empty':
+        stale = env.open() if plan['stale'] else None        # a store object from before the pack: its .packed stays {}
+        run_execute(env)
+        if plan['pack']:
+            real_pack(env, plan['pack'])
+        if plan['stale']:
+            vals = evaluate(spec, {})
+            for tid in map(tid_key, plan['stale']):
+                stale.dump(vals[tid], bx(h_of[tid]))
+    gone = set(h_of[tid_key(t)] for t in plan['picks'])
+    if gone:
         s = env.open()
         for h in sorted(gone):
             s.remove(bx(h))
         env.finish_with(s)
-        if backend == 'filepack' and rng.random() < 0.5:
-            # some results come back as plain files next to the pack
-            back = [h for h in sorted(gone) if rng.random() < 0.5]
-            if back:
-                vals = evaluate(spec, {})
-                s = env.open()
-                for tid, h in h_of.items():
-                    if h in back:
-                        s.dump(vals[tid], bx(h))
-                gone -= set(back)
-    foreign = ['%040x' % rng.getrandbits(160) for _ in range(rng.choice([0, 1, 1, 2]))]
+        back = set(h_of[tid_key(t)] for t in plan['back'])
+        if back:
+            vals = vals or evaluate(spec, {})
+            s = env.open()
+            for tid, h in h_of.items():
+                if h in back:
+                    s.dump(vals[tid], bx(h))
+    foreign = list(plan['foreign'])
     if foreign:
         s = env.open()
         for k in foreign:
             s.dump(('foreign', k[:6]), bx(k))
         env.finish_with(s)
-        if backend == 'filepack' and rng.random() < 0.5:
-            s = env.open()
-            s.update_pack()
+        if plan['repack']:
+            real_pack(env, plan['repack'])
     return env, info, otasks, h_of, foreign
 
 
@@ -813,6 +886,7 @@ def run_target(spec, base, info, otasks, h_of, target, tag, driver):
     b = base.clone(tag + 'b')
     before = a.raw()
     obs['before'] = sorted(before)
+    obs['both'] = sorted(k for k, v in before.items() if v.startswith('F') and 'P' in v)     # packed AND a file
     write_salts(base.root, new_salts)               # the target's code changes now
     # ---- the command
     a.activate()
@@ -1054,22 +1128,20 @@ def case_lit(info, obs):
 
 # ---------------------------------------------------------------------------- driver
 def summarize(obs):
-    return dict((k, obs[k]) for k in ('target', 'driver', 'matched_names', 'before', 'remove_many', 'msg', 'table',
+    return dict((k, obs[k]) for k in ('target', 'driver', 'matched_names', 'before', 'both', 'remove_many', 'msg', 'table',
                                       'cli_after', 'shell', 'shell_after', 'executed', 'calls', 'final', 'output')
                 if k in obs)
 
 
 def run_program(ck, spec, state, backend, rng, root, ntargets, cases, metas, stats):
-    try:
-        base, info, otasks, h_of, foreign = build_base(spec, state, backend, root, rng)
-    except HarnessError:
-        raise
+    plan = make_plan(rng, spec, state, backend)
+    base, info, otasks, h_of, foreign = build_base(spec, state, backend, root, plan)
     targets = gen_targets(rng, spec, otasks, ntargets)
     for ti, target in enumerate(targets):
         driver = ('cli', 'direct')[(stats['n'] // 3) % 2]
         stats['n'] += 1
         obs = run_target(spec, base, info, otasks, h_of, target, 't%d' % ti, driver)
-        meta = {'spec': spec, 'state': state, 'backend': backend, 'target': target, 'driver': driver,
+        meta = {'spec': spec, 'state': state, 'backend': backend, 'plan': plan, 'target': target, 'driver': driver,
                 'graph': info, 'observed': summarize(obs)}
         for clause, exp, got in oracle(spec, info, otasks, h_of, foreign, obs):
             ck.violation({'kind': 'impl-violation', 'what': 'invalidate on %s: %s' % (backend, clause.split(' of (')[0]),
@@ -1088,6 +1160,12 @@ def run_program(ck, spec, state, backend, rng, root, ntargets, cases, metas, sta
         ck.count('driver:%s' % driver)
         ck.count('target:%s' % ('regex' if target.startswith('/') else 'dotted' if '.' in target else 'bare'))
         ck.count('message:%s' % obs['msg'])
+        if backend == 'filepack':
+            ck.count('pack:%s%s' % ((plan['pack'] or {'mode': 'none'})['mode'], '+stale re-dump' if plan['stale'] else ''))
+        if obs['both']:
+            ck.count('state:key both packed and a file')
+            if obs['remove_many'] and set(obs['both']) & set(obs['remove_many'][0]):
+                ck.count('state:invalidated key both packed and a file')
         ck.count('invalid tasks:%s' % ('0' if inv_n == 0 else '1-2' if inv_n <= 2 else '3-5' if inv_n <= 5 else '6+'))
         if inv_n and inv_n < len(info):
             ck.count('proper subset of the tasks invalidated')
@@ -1201,7 +1279,8 @@ def replay(obj):
         home = os.environ.get('HOME')
         os.environ['HOME'] = root
         try:
-            base, info, otasks, h_of, foreign = build_base(spec, state, backend, root, rng)
+            plan = obj.get('plan') or make_plan(rng, spec, state, backend)
+            base, info, otasks, h_of, foreign = build_base(spec, state, backend, root, plan)
             obs = run_target(spec, base, info, otasks, h_of, target, 'r', obj.get('driver', 'cli'))
         finally:
             if home is None:
@@ -1215,7 +1294,8 @@ def replay(obj):
     lit, ids, nids = case_lit(info, obs)
     sh = lambda l: sorted(ids.get(k, k) for k in l)
     print('tasks        ', [(ids[h], n, [ids[x] for x in d]) for h, n, d in info])
-    print('before       ', sh(obs['before']))
+    print('store built  ', plan)
+    print('before       ', sh(obs['before']), ' both in the pack and a file:', sh(obs['both']))
     print('remove_many  ', [[ids[k] for k in l] for l in obs['remove_many']], ' message', obs['msg'], obs['table'])
     print('after command', sh(obs['cli_after']))
     print('shell        ', [(ids[s], [ids[k] for k in l]) for s, l in obs['shell']])
